@@ -120,6 +120,16 @@ def parse_frames(stream):
     return out
 
 
+def upto_raise(line):
+    """results up to and including the first exception (an exception ends a generator: what next() does afterwards is Python's business)"""
+    out = []
+    for o in line.split(";")[0].split("|"):
+        out.append(o)
+        if o.startswith("raise:") and o != "raise:TimedOut":
+            break
+    return out
+
+
 def run(ctx):
     T = Tally()
     rng = random.Random(ctx.seed)
@@ -148,6 +158,20 @@ def run(ctx):
             judge(T, frames, sp, res, fire, skip, pub)
         if model is not None and wsrun.canon_model(model[j]) != line:
             T.fail("corr", {"line": wsrun.scenario_line(sc)[:500]}, model[j][:300], line[:300], {"site": "wsrun"})
+    # the iterator interface (`for message in ws`, next()) is a sequence of recv() calls: same results, same transport operations
+    for i, frames in enumerate(cases):
+        if i % 3 and not any(f[0] in (1, 2) and f[2] == b"" for f in frames):
+            continue
+        stream = encode_frames(frames)
+        skip = 1 if i % 4 == 3 else 0
+        _, line_rv, _ = observe(stream, [], "rv", len(frames) + 2, 0, skip)
+        _, line_it, _ = observe(stream, [], "it", len(frames) + 2, 0, skip)
+        T.case(("iter", stream[:48], skip), nontrivial=True, bucket="iterator", sample={"frames": [(f[0], f[1], f[2].hex()[:12]) for f in frames][:6], "line": line_it[:100]})
+        if upto_raise(line_it) != upto_raise(line_rv):
+            T.fail("spec", {"kind": "iterator", "stream": stream.hex() if len(stream) < 3000 else None, "skip": skip}, "iteration delivers what successive recv() calls deliver: " + line_rv[:200], line_it[:200],
+                   {"site": "__iter__", "cls": "iterator-differs-from-recv"},
+                   what="iterating over the connection did not deliver the messages that successive recv() calls deliver")
+            break
     T.validated = len(runs)
     return T.result(
         "every cutting of 4 messages (binary empty / 6 bytes, text with multi-byte characters) into 1..4 (6) fragments "
@@ -165,6 +189,11 @@ def search(ctx):
 
 def replay(ctx, sc):
     stream = bytes.fromhex(sc["stream"])
+    if sc.get("kind") == "iterator":
+        n = len(parse_frames(stream)) + 2
+        _, line_rv, _ = observe(stream, [], "rv", n, 0, sc["skip"])
+        _, line_it, _ = observe(stream, [], "it", n, 0, sc["skip"])
+        return None if upto_raise(line_rv) == upto_raise(line_it) else {"recv": line_rv[:300], "iteration": line_it[:300]}
     sp = parse_specseq(ctx.spec.run([f"specseq {0 if sc['skip'] else 1} {hx(stream)}"])[0])
     _, line, _ = observe(stream, [], "rd0", sp["n"] + 2, sc["fire"], sc["skip"])
     T = Tally()
